@@ -10,6 +10,7 @@ package bplus
 
 /*@
 immutable BPlusTreeStore.db by NewBPlusTreeStore
+immutable BPlusKVPairReader.prefix by NewBPlusKVPairReader
 
 func BPlusTreeStore.Get
   props C14
@@ -22,4 +23,19 @@ func BPlusTreeStore.GetLast
   requires s.db != nil
   ensures C14/last-belongs-to-table: isnil(result_1) ==> result_0 != nil && result_0.Key[-1] == prefixOf(table)
   call 3 invariant result != nil && (isnil(result.Key) || result.Key[-1] == prefixOf(table))
+
+func NewBPlusKVPairReader
+  props C14
+  ensures result != nil && fresh(result) && result.prefix == prefixOf(table) && result.db == db && len(result.lastKey) == 1 && result.lastKey[0] == prefixOf(table)
+
+// a full scan of table t yields entries OF TABLE t only
+func BPlusKVPairReader.Read
+  props C14
+  requires r.db != nil && len(r.lastKey) >= 1 && r.lastKey[0] == r.prefix
+  modifies r.lastKey, buffer[*]
+  ensures C14/scan-stays-in-table: forall k int :: 0 <= k && k < result_0 ==> buffer[k] != nil && buffer[k].Key[-1] == r.prefix
+  ensures 0 <= result_0 && result_0 <= len(buffer)
+  ensures len(r.lastKey) >= 1
+  call 2 invariant 0 <= n && n <= len(buffer) && len(r.lastKey) >= 1 && r.lastKey[0] == r.prefix
+  call 2 invariant forall k int :: 0 <= k && k < n ==> buffer[k] != nil && buffer[k].Key[-1] == r.prefix
 @*/
